@@ -352,6 +352,15 @@ func c15Expect(defect string, tag int, set quickfix.ValidatorSettings) c15Exp {
 			return acc
 		}
 		return rej(tag, 14)
+	case "header-field-repeated-behind-body":
+		// two readings of one defect: out of order where the order is checked, a second occurrence of the tag otherwise
+		if set.CheckFieldsOutOfOrder {
+			return rej(tag, 14, 13)
+		}
+		if !set.RejectInvalidMessage {
+			return acc
+		}
+		return rej(tag, 13)
 	case "empty-value":
 		if !set.CheckFieldsHaveValues && !set.RejectInvalidMessage {
 			return acc
@@ -438,7 +447,7 @@ func runC15(c *core.Ctx) {
 		c.EngineError(err.Error())
 		return
 	}
-	c.SetRule("for every message type of every shipped dictionary: conforming messages (required-only; plus each optional top-level field singly; plus each group with 1 and 2 entries) and every single-defect mutant (each required field removed; undefined tags <5000 and >=5000 at the body boundaries; each typed field with an ill-typed value; each enumerated field with a non-member; each enumerated multiple-value field with two members and with irregular blanks; an undefined tag 5000; each group count +-1 and 0 with entries following; group members swapped; each required member of a group removed from the first and from the last of two entries; every optional header field (enumerated ones with each value) conforming, ill-typed and out of enumeration; header field in body; body field after a trailer field; each field duplicated; each value emptied; unknown MsgType), judged under all 32 combinations of validator settings; under the default and the all-off settings also parsed into a Message object that parsed a long defective message before and judged by a Validator object that has rejected two defective variants of the same message before; session part: a real logged-on FIX.4.2/4.3/4.4 session whose validator the factory builds from the configuration (each validator setting alone at Y and at N) receives a conforming NewOrderSingle and one mutant of each kind, and the transmitted Reject's reason and RefTagID are judged")
+	c.SetRule("for every message type of every shipped dictionary: conforming messages (required-only; plus each optional top-level field singly; plus each group with 1 and 2 entries) and every single-defect mutant (each required field removed; undefined tags <5000 and >=5000 at the body boundaries; each typed field with an ill-typed value; each enumerated field with a non-member; each enumerated multiple-value field with two members and with irregular blanks; an undefined tag 5000; each group count +-1 and 0 with entries following; group members swapped; each required member of a group removed from the first and from the last of two entries; every optional header field (enumerated ones with each value) conforming, ill-typed and out of enumeration; header field in body; a header field of the message repeated behind the body; body field after a trailer field; each field duplicated; each value emptied; unknown MsgType), judged under all 32 combinations of validator settings; under the default and the all-off settings also parsed into a Message object that parsed a long defective message before and judged by a Validator object that has rejected two defective variants of the same message before; session part: a real logged-on FIX.4.2/4.3/4.4 session whose validator the factory builds from the configuration (each validator setting alone at Y and at N) receives a conforming NewOrderSingle and one mutant of each kind, and the transmitted Reject's reason and RefTagID are judged")
 	c.Assume("expected reason/tag per defect kind follow the FIX session reject reasons; where the pipeline legitimately reports an equally specific rule first the oracle is set-valued (ill-typed value of an enumerated field: 5 or 6; swapped group members: 15,16,1,2 or 13)",
 		"message types whose MsgType is not in the transport dictionary's enumeration are not conforming and are skipped", "XmlDataLen/XmlData and other LENGTH/DATA pairs are not used as optional singles")
 	settingsList := []int{}
@@ -724,6 +733,14 @@ func runC15(c *core.Ctx) {
 			}
 			if len(base) > hdrLen {
 				emit("header-field-in-body", 50, insertAt(base, len(base), fixscan.Field{Tag: 50, Value: "SUB"}), "")
+				// a header field of the message once more, behind the body
+				for _, ht := range []int{49, 56} {
+					for _, hf := range base[:hdrLen] {
+						if hf.Tag == ht {
+							emit("header-field-repeated-behind-body", ht, insertAt(base, len(base), hf), "")
+						}
+					}
+				}
 				L := len(base) - 1
 				if g.ts.Trailer != nil && g.ts.Trailer.Tags[93] && L > hdrLen && isTopScalar(base[L].Tag) {
 					// ..., SignatureLength, Signature, last body field
